@@ -982,13 +982,12 @@ def comment_hazards(slot, path):
     (frames as printed by the driver, see harness/src/bin/c06.rs)"""
     hz = []
     groups = [f for f in path if f["f"] == "group"]
-    # S3: Group::fmt deletes every '\n' in the rendering of a group choice with <= 3 entries when the group has > 2 choices
-    if any(f["ngc"] > 2 and f["ne"] <= 3 for f in groups):
-        hz.append("kf-c16-newlines-deleted-in-multi-choice-group")
     last = path[-1] if path else None
     if slot == "choice.after" and last and last["f"] == "type":
         top = len(path) == 2 and path[0]["f"] == "rule"
-        if last["i"] == 0 and not (top and last["n"] == 1):
+        # Type::fmt trims the line break of the first choice's trailing comment; with more than two choices the layout
+        # starts the next choice on a new line anyway
+        if last["i"] == 0 and (last["n"] == 2 or (last["n"] == 1 and not top)):
             hz.append("kf-c16-first-choice-trailing-comment")
     if slot == "grpchoice.before" and last and last["f"] == "group" and last["ne"] <= 1 and not last["doc"]:
         hz.append("kf-c16-grpchoice-comment-dropped")
@@ -1000,6 +999,12 @@ def comment_hazards(slot, path):
         par = path[-2]
         if par["f"] == "group" and par["part"] == "type":
             node = len(path) - 2
+    # S3: Group::fmt deletes every '\n' in the rendering of a group choice with <= 3 entries when the group has > 2 choices;
+    # harmless only for a comment that ends the rendering of that choice (a line break follows the choice)
+    for j, f in enumerate(path):
+        if f["f"] == "group" and f["ngc"] > 2 and f["ne"] <= 3 and not (j == node and f["e"] == f["ne"] - 1):
+            hz.append("kf-c16-newlines-deleted-in-multi-choice-group")
+            break
     if node is not None:
         g = path[node]
         if slot == "choice.after" and not g["doc"] and 2 <= g["ne"] <= 3:
